@@ -225,3 +225,32 @@ package consul
 //@ loop 3 invariant[deletes-complete] forall a int :: 0 <= a && a < len(local) && cfgGone(local[a], remote) ==> exists k int :: 0 <= k && k < len(deletions) && deletions[k] == local[a]
 //@ loop 3 invariant[updates-sound] forall k int :: 0 <= k && k < len(updates) ==> exists b int :: 0 <= b && b < remoteIdx && updates[k] == remote[b] && cfgNeedsUpdate(remote[b], local, lastRemoteIndex)
 //@ loop 3 invariant[updates-complete] forall b int :: 0 <= b && b < remoteIdx && cfgNeedsUpdate(remote[b], local, lastRemoteIndex) ==> exists k int :: 0 <= k && k < len(updates) && updates[k] == remote[b]
+
+//@ file acl_replication.go
+// ---- C19, apply phase of one replication round (order only): what the diff asked for is applied, deletions first.
+// Deletions must precede upserts: names are unique, so an upsert of a new object that re-uses the name of an object
+// deleted in the primary fails while the old object still exists locally, and the round never converges.
+// The two apply loops (rate limiting, raft applies) are ASSUMED contracts, recorded with a ghost clock. The ordering
+// assumptions about the type adapter that diffACLType needs (lists ordered by ID once SortState ran; they are functions of
+// the adapter alone) are repeated here as preconditions: still the ASSUMED aclTypeReplicator interface contract.
+//@ func Server.deleteLocalACLType
+//@ trusted
+//@ opt record deleteLocalACLType
+//@ results dexit, derr
+//@ modifies nothing
+//@ func Server.updateLocalACLType
+//@ trusted
+//@ opt record updateLocalACLType
+//@ results uexit, uerr
+//@ modifies nothing
+//@ func Server.replicateACLType
+//@ props C19
+//@ results idx, exit, err
+//@ requires s != nil
+//@ requires[lengths] nLocal(tr) >= 0 && nRemote(tr) >= 0
+//@ requires[local-sorted] forall a int, b int :: 0 <= a && a < b && b < nLocal(tr) ==> (lid(tr, b) == "" ==> lid(tr, a) == "") && (lid(tr, a) != "" ==> strLt(lid(tr, a), lid(tr, b)))
+//@ requires[remote-sorted] forall a int, b int :: 0 <= a && a < b && b < nRemote(tr) ==> (rid(tr, b) == "" ==> rid(tr, a) == "") && (rid(tr, a) != "" ==> strLt(rid(tr, a), rid(tr, b)))
+//@ requires[fresh-round] !called("deleteLocalACLType") && !called("updateLocalACLType")
+//@ ensures[complete-round-applied-what-the-diff-asked-for] err == nil && !exit ==> (called("deleteLocalACLType") <==> len(res.LocalDeletes) > 0) && (called("updateLocalACLType") <==> len(res.LocalUpserts) > 0)
+//@ ensures[deletions-before-upserts] called("updateLocalACLType") && len(res.LocalDeletes) > 0 ==> called("deleteLocalACLType") && lastCall("deleteLocalACLType") < firstCall("updateLocalACLType")
+//@ ensures[upserts-only-after-successful-deletions] called("updateLocalACLType") && called("deleteLocalACLType") ==> lastErr("deleteLocalACLType") == nil
